@@ -89,10 +89,15 @@ class Recorder(TunerCallback):
             crit = bool(t.stop_criterion(st))
         except Exception as e:  # a user criterion may raise; not ours
             crit = "exc:" + type(e).__name__
+        stop = self.scen["tuner"]["stop"]
+        names = set(stop.get("max_metric_value") or {}) | set(stop.get("min_metric_value") or {}) | {"st_tuner_time"}
+        oms = st.overall_metric_statistics
         self.sim.log(
             "cb.loop_end", crit=crit, nfailed=st.num_trials_failed, started=st.num_trials_started,
             completed=st.num_trials_completed, finished=st.num_trials_finished,
-            nevals=st.overall_metric_statistics.count, wall=st.wallclock_time,
+            nevals=oms.count, wall=st.wallclock_time, cost=st.cost,
+            maxm={k: oms.max_metrics[k] for k in sorted(names) if k in oms.max_metrics},
+            minm={k: oms.min_metrics[k] for k in sorted(names) if k in oms.min_metrics},
         )
         self._maybe_raise("on_loop_end")
 
